@@ -2,7 +2,7 @@
 synctest bubble (harness/c01), traces validated against the property layer of Speaker.tla."""
 import vpcore as v
 
-GROUPS = ["ebgp3", "mixed", "rr"]
+GROUPS = ["ebgp3", "mixed", "rr", "addpath"]
 
 TRACE_CFG = """SPECIFICATION TraceSpec
 CONSTANTS
@@ -26,6 +26,7 @@ CONSTANTS
   LocalAS = 65000
   MaxSteps = %(steps)d
   WithPolicy = %(pol)s
+  Warm = %(pol)s
 INVARIANTS
   Emit
 """
@@ -65,6 +66,8 @@ def design_mech(run, thorough):
     if run.replay:
         return
     for g in GROUPS:
+        if g == "addpath":
+            continue        # the mechanism model has no ADD-PATH bookkeeping
         cfg = "MCSpeakerMech_%s_run.cfg" % g
         v.write_cfg(run.sc, cfg, MECH_CFG % {"g": g, "pfx": '{"x1"}', "n": 6 if thorough else 5})
         res = v.tlc(run.sc, "SpeakerMech", cfg, timeout=2400, coverage=thorough)
